@@ -80,3 +80,37 @@ def covered_iff(h):
     lb, ub = lf - r, r - uf
     sc = z3.If(lb >= ub, lb, ub)
     h.lemma("covered_iff_score_le_c", z3.And(lf - c <= r, r <= uf + c) == (sc <= c))
+
+
+@unit("C04", "unit_intervals.robust_option", fns=[f"{NP}.get_unit_prediction_intervals"])
+def unit_intervals_robust(h):
+    """with the robust option the single correction is the LARGER of the population correction and the plain
+    alpha*(1+1/n_cal) quantile of the calibration scores -- so it satisfies both calibration conditions of the statement"""
+    from pyvc.theory_np import round_half_even_t
+
+    t, self, alpha, kind, res = C03.run_np_intervals(h, robust=True)
+    rpr = lambda ev: {"target": "verif_replays:robust_correction_replay", "args": [], "check": "result['exc'] is None and result['ok']"}  # noqa: E731
+    if kind == "raise":
+        return h.fail("C14.totality_above_the_gate", f"raised {res}", budget_factor=3, replay=rpr)
+    lower, upper, conf = res.lower, res.upper, res.conformalization
+    pc = [c for c in h.interp.call_log if c[0] == "popcorr"]
+    h.ensures("one_population_correction", len(pc) == 1)
+    sc, q = pc[0][1]["scores"], pc[0][1]["q"]
+    # the plain quantile the body computed: the np.quantile contract's value for (these scores, this level)
+    arrays = h.ctx.__dict__.get("_quant_arrays", {})
+    mine = [(fn, x, ax) for (fn, x, ax) in arrays.values() if z3.eq(x.t, sc.t)]
+    h.ensures("one_plain_quantile_of_the_calibration_scores", len(mine) == 1, replay=rpr)
+    if len(mine) != 1:
+        return
+    fn = mine[0][0]
+    plain = fn(real(q.t))
+    ca = conf.axis
+    h.ensures("quantile_level_is_alpha_times_one_plus_one_over_n_cal", q.t == alpha.t * (1 + 1 / z3.ToReal(ca.n)), replay=rpr)
+    popc = z3.Real("population_correction")
+    c = z3.If(plain >= popc, plain, popc)
+    qs = h.interp.qr_models
+    rows = z3.And(*t.nonrep.axis.facts())
+    lraw, uraw = qs[0].predict(C03._holdout(h, t)), qs[1].predict(C03._holdout(h, t))
+    want_l = z3.If((lraw.t - c) * t.last + t.last >= t.res, (lraw.t - c) * t.last + t.last, t.res)
+    want_u = z3.If((uraw.t + c) * t.last + t.last >= t.res, (uraw.t + c) * t.last + t.last, t.res)
+    h.ensures("robust.single_correction_is_the_larger_of_the_two", z3.Implies(rows, z3.And(lower.t == z3.ToReal(round_half_even_t(want_l)), upper.t == z3.ToReal(round_half_even_t(want_u)))), replay=rpr)
